@@ -16,7 +16,9 @@ NATIVE = ['UNIFORM', 'UNIFORM_ANTI', 'UNIFORM_HALTON2', 'UNIFORM_HALTON3', 'UNIF
           'UNIFORM_MLHS_ANTI', 'UNIFORMSYM', 'UNIFORMSYM_ANTI', 'UNIFORMSYM_HALTON2', 'UNIFORMSYM_HALTON3',
           'UNIFORMSYM_HALTON5', 'UNIFORMSYM_MLHS', 'UNIFORMSYM_MLHS_ANTI', 'NORMAL', 'NORMAL_ANTI', 'NORMAL_HALTON2',
           'NORMAL_HALTON3', 'NORMAL_HALTON5', 'NORMAL_MLHS', 'NORMAL_MLHS_ANTI']
-USER = ['UDET', 'URND']
+# user-defined types: deterministic, random, integer-valued series (regime draws), single-precision series, and two
+# types whose names differ from a native type only by the case of the letters (legal: native names are upper case)
+USER = ['UDET', 'URND', 'UINT', 'UF32', 'Normal', 'uniform_halton2']
 DRAW_NAMES = ['xi', 'zeta', 'alpha_draw', 'Z']
 BETAS = {'b0': 0.3, 'b1': -0.6, 's': 0.8}
 
@@ -52,6 +54,8 @@ def make_ops(rng, cfg, profile, tier):
             ops.append({'op': 'RESERVED', 'a': [rng.randrange(len(NATIVE))]})
     if rng.random() < 0.3:
         ops.insert(rng.randrange(len(ops) + 1), {'op': 'REREGISTER', 'a': [rng.randrange(1, 5)]})
+    if rng.random() < 0.25:
+        ops.insert(rng.randrange(len(ops) + 1), {'op': 'SHARED_MODELS', 'a': [rng.choice([2, 4, 6]), rng.randrange(4)]})
     if rng.random() < 0.3:
         ops.insert(rng.randrange(len(ops) + 1), {'op': 'EVAL_KEPT', 'a': [rng.choice([6, 10]), rng.choice([2, 4]), rng.randrange(4)]})
     for _ in range(rng.randrange(0, 3)):
@@ -142,7 +146,29 @@ class Session:
             sess.calls.append(('URND', (sample_size, number_of_draws), out.copy()))
             return out
 
-        self.user = {'UDET': (udet, 'deterministic'), 'URND': (urnd, 'random user generator')}
+        def uint(sample_size, number_of_draws):
+            out = np.array([[(i * 2 + r) % 3 - 1 for r in range(number_of_draws)] for i in range(sample_size)], dtype=np.int64)
+            sess.calls.append(('UINT', (sample_size, number_of_draws), np.array(out, dtype=float)))
+            return out
+
+        def uf32(sample_size, number_of_draws):
+            out = np.array([[((i * 3 + r * 5) % 11) / 11.0 - 0.45 for r in range(number_of_draws)]
+                            for i in range(sample_size)], dtype=np.float32)
+            sess.calls.append(('UF32', (sample_size, number_of_draws), np.array(out, dtype=float)))
+            return out
+
+        def mixed_case(tname, shift):
+            def gen(sample_size, number_of_draws):
+                out = np.array([[((i * 7 + r * 2) % 5) / 5.0 - shift for r in range(number_of_draws)]
+                                for i in range(sample_size)])
+                sess.calls.append((tname, (sample_size, number_of_draws), out.copy()))
+                return out
+            return gen
+
+        self.user = {'UDET': (udet, 'deterministic'), 'URND': (urnd, 'random user generator'),
+                     'UINT': (uint, 'integer-valued series'), 'UF32': (uf32, 'single-precision series'),
+                     'Normal': (mixed_case('Normal', 0.3), 'user type, not the native NORMAL'),
+                     'uniform_halton2': (mixed_case('uniform_halton2', 0.1), 'user type, not the native UNIFORM_HALTON2')}
         self.db = db.Database('mc', self.table.copy())
         self.db.set_random_number_generators(dict(self.user))
         self.objects = []
@@ -321,6 +347,52 @@ class Session:
                                               f'likelihood of a live object: {before!r} -> {after!r}')
                 ctx.probe('unrelated Monte-Carlo evaluation between construction and use')
             ctx.log(kind, R2)
+        elif kind == 'SHARED_MODELS':
+            # two models on one database that SHARE a draw variable object; in the two models the shared variable sits at
+            # another place among the draw variables (alphabetical numbering), and each model must go on feeding every
+            # variable with its own series whatever was built or simulated in between
+            import biogeme.biogeme as bio
+            from biogeme.parameters import Parameters
+            R, order = a
+            det = {}
+            for tp_ in ('UDET', 'UF32', 'UINT'):
+                self.calls.clear()
+                self.user[tp_][0](len(self.rows), R)
+                det[tp_] = self.calls[-1][2]
+            self.calls.clear()
+            sh = ex.bioDraws('sh_b', 'UDET')
+            c_ = ex.bioDraws('sh_c', 'UF32')
+            a_ = ex.bioDraws('sh_a', 'UINT')
+            x0 = ex.Variable('x0')
+            m1 = ex.MonteCarlo(0.5 * sh + 0.25 * c_ * x0 + 1)
+            m2 = ex.MonteCarlo(2.0 * a_ - sh * x0 + 3)
+            want1 = [float(np.mean(0.5 * det['UDET'][i, :] + 0.25 * det['UF32'][i, :] * r['x0'] + 1)) for i, r in enumerate(self.rows)]
+            want2 = [float(np.mean(2.0 * det['UINT'][i, :] - det['UDET'][i, :] * r['x0'] + 3)) for i, r in enumerate(self.rows)]
+
+            def obj(f):
+                p = Parameters()
+                p.set_value('number_of_draws', R)
+                p.set_value('number_of_threads', self.cfg['threads'])
+                p.set_value('save_iterations', False)
+                return bio.BIOGEME(self.db, {'p': f}, parameters=p)
+
+            def sim(b, want, what):
+                got = [float(v) for v in b.simulate({})['p'].to_list()]
+                for i_, (g_, w_) in enumerate(zip(got, want)):
+                    if not ref.close(g_, w_, 1e-10, 1e-13):
+                        ctx.fail('I10.route', f'{what}: observation {i_}: {g_!r}, the mean over the draws with every variable '
+                                              f'replaced by its own series is {w_!r}')
+            b1 = obj(m1)
+            if order % 2:
+                sim(b1, want1, 'first model, simulated before the second one is built')
+            b2 = obj(m2)
+            if order >= 2:
+                sim(b2, want2, 'second model (shares a draw variable with the first one)')
+            sim(b1, want1, 'first model, simulated after a second model sharing one of its draw variables was built')
+            sim(b2, want2, 'second model (shares a draw variable with the first one)')
+            sim(b1, want1, 'first model again')
+            ctx.probe('two models sharing a draw variable object')
+            ctx.log(kind, R, order)
         elif kind == 'REBUILD':
             seed, R, adv = a
             kw = bool(adv % 2)      # the seed handed over as a constructor keyword / in the Parameters object
